@@ -10,13 +10,15 @@
 (* and the recorded trace is validated against TraceAuth.                  *)
 (* Cases whose secret S is 0 (B = k*v mod N) are excluded here (C14).      *)
 (***************************************************************************)
-EXTENDS Srp6, Json, FiniteSets
+EXTENDS Srp6, NormString, Json, FiniteSets
 
 CONSTANTS Primes, Gens
 
 Key(n) == Pad(Nat2LE(n), 32)
-User == <<85, 49>>            \* "U1"
-Pass == <<112, 58, 87>>       \* "p:W"
+RawUser == <<85, 49>>            \* "U1" as typed
+RawPass == <<112, 58, 87>>       \* "p:W" as typed
+User == Text(RawUser)            \* normalised, as the formulas expect
+Pass == Text(RawPass)
 Salt == [i \in 1..32 |-> (i * 11 + 3) % 256]
 
 VARIABLES n, g, a
@@ -35,7 +37,7 @@ Case(B) ==
         S  == ClientS(g, N, Key(B), x, Key(a), Uh(A, Key(B)))
         K  == SrpInterleave(S)
         m1 == M1(g, N, User, Salt, A, Key(B), K)
-    IN [g |-> g, N |-> N, a |-> Key(a), B |-> Key(B), salt |-> Salt, user |-> User, pass |-> Pass,
+    IN [g |-> g, N |-> N, a |-> Key(a), B |-> Key(B), salt |-> Salt, user |-> RawUser, pass |-> RawPass,
         S0 |-> AllZero(S), A |-> A, M1 |-> m1, M2 |-> M2(A, m1, K), z |-> LeadingZeros(S)]
 
 \* design-level facts, for every enumerated case
